@@ -457,6 +457,12 @@ class AttributeSet(TypedExpression):
         for binding in self.values:
             if isinstance(binding, Binding) and binding.name == key:
                 binding.value = value
+                if binding.nested:
+                    # The binding was merged from attrpath entries (`key.x = ..;`):
+                    # it now is one explicit binding, rendered where the first
+                    # entry of the family stood.
+                    binding.nested = False
+                    self._replace_attrpath_family(key, binding)
                 return
         new_binding = Binding(name=key, value=value)
         self.values.append(new_binding)
@@ -469,12 +475,37 @@ class AttributeSet(TypedExpression):
             if isinstance(binding, Binding) and binding.name == key:
                 del self.values[i]
                 if self.attrpath_order:
-                    for index, item in enumerate(self.attrpath_order):
-                        if item is binding:
-                            del self.attrpath_order[index]
-                            break
+                    if binding.nested:
+                        self._replace_attrpath_family(key, None)
+                    else:
+                        for index, item in enumerate(self.attrpath_order):
+                            if item is binding:
+                                del self.attrpath_order[index]
+                                break
                 return
         raise KeyError(key)
+
+    def _replace_attrpath_family(self, key: str, replacement: Binding | None) -> None:
+        """Drop the render-order entries of the attrpath family rooted at *key*,
+        putting *replacement* (if any) where its first entry stood."""
+        if not self.attrpath_order:
+            return
+        updated: list[Binding | Inherit | _AttrpathEntry] = []
+        placed = replacement is None
+        for item in self.attrpath_order:
+            in_family = (
+                isinstance(item, _AttrpathEntry) and item.segments[0] == key
+            ) or (isinstance(item, Binding) and item.nested and item.name == key) or (
+                item is replacement
+            )
+            if not in_family:
+                updated.append(item)
+            elif not placed:
+                updated.append(replacement)
+                placed = True
+        if not placed and replacement is not None:
+            updated.append(replacement)
+        self.attrpath_order[:] = updated
 
 
 __all__ = ["AttributeSet"]
